@@ -664,6 +664,62 @@ def register_user_subs(c):
     return csubs, progs
 
 
+def tree_ties(asts, nstates=0):
+    """compile each program with the real compiler and ask Lean whether the denoted real tree equals the lowering model's tree
+    (Cfg.asCode); returns [(src, status, tree_equal, model, real)] - the observation 'which conversions were inserted where'"""
+    items = [{"ast": a, "src": gen.prog_src(a)} for a in asts]
+    parsed = rc.parse_programs([it["src"] for it in items])
+    c = rc.compiler("READ_STATEMENTS")
+    for it, pr in zip(items, parsed):
+        if pr[0] != "ok":
+            it["status"] = "parse-reject"
+            continue
+        r = rc.transform_tree(c, pr[1])
+        if r[0] != "ok":
+            it.update(status="transform-reject", exc=r[1])
+        else:
+            it.update(status="ok", text={"READ_STATEMENTS": r[1]})
+    subdefs = rc.sub_routine_defs(c)
+    pre = [sx(["def-sub", n_, ret, [[p_, s_] for p_, s_ in params], Q(text)]) for n_, ret, params, text in subdefs]
+    reqs = semcheck.sem_requests(items, nstates, seed() + 1, csubs=all_csubs())
+    reps = Driver().run(pre + [r for _, r in reqs])[len(pre):]
+    out = []
+    done = set()
+    for (i, _), rp_ in zip(reqs, reps):
+        d = semcheck.parse_sem(rp_)
+        done.add(i)
+        out.append((items[i]["src"], "ok", bool(d.get("tree-equal")), d.get("model"), d.get("real")))
+    for i, it in enumerate(items):
+        if i not in done:
+            out.append((it["src"], it.get("status", "unmodelled"), None, None, None))
+    return out
+
+
+def common_type_programs():
+    """every pair of operand types under + * & and the comparisons, the right/left operand also as a literal of every suffix:
+    the common type must depend on the two TYPES only"""
+    out = []
+    L = lambda txt: lit(txt)
+    for t1 in TN:
+        a = var("a", t1)
+        pre = [decl(t1, "a", ("cast", t1, T[t1], reg("RssV")))]
+        for t2 in TN:
+            b = var("b", t2)
+            pre2 = pre + [decl(t2, "b", ("cast", t2, T[t2], reg("RttV")))]
+            out.append(pre2 + [wr("RddV", ("bin", "+", a, b))])
+            out.append(pre2 + [wr("RdV", ("cmp", "<", a, b))])
+            out.append(pre2 + [wr("RddV", ("tern", reg("PuV"), a, b))])
+        for txt in ("5", "5U", "5LL", "5ULL", "0x80000000", "0xffffffffU"):
+            for op in ("+", "*", "&"):
+                out.append(pre + [wr("RddV", ("bin", op, a, L(txt)))])
+                out.append(pre + [wr("RddV", ("bin", op, L(txt), a))])
+            for op in ("<", ">=", "=="):
+                out.append(pre + [wr("RdV", ("cmp", op, a, L(txt)))])
+                out.append(pre + [wr("RdV", ("cmp", op, L(txt), a))])
+            out.append(pre + [("if", ("log", "&&", a, L(txt)), [wr("RdV", L("1"))], None)])
+    return out
+
+
 def explicit_rw_mixed(ast) -> bool:
     reads, writes = set(), set()
     gen._regs(list(ast), reads, writes)
